@@ -494,7 +494,10 @@ class Lexer(object):
                         e(environment.block_end_string),
                         e(environment.block_end_string)
                     )] + [
-                        r'(?P<%s_begin>\s*%s\-|[ \t]*%s\*|%s)' % (n, r, r, prefix_re.get(n,r))
+                        # the auto-indent marker exists for blocks and variables only: a comment whose body
+                        # merely starts with '*' must not swallow the blanks in front of it.
+                        r'(?P<%s_begin>\s*%s\-%s|%s)' % (
+                            n, r, (r'|[ \t]*%s\*' % r) if n in ('block', 'variable') else '', prefix_re.get(n,r))
                         for n, r in root_tag_rules
                     ])), (TOKEN_DATA, '#bygroup'), '#bygroup'),
                 # data
